@@ -6,11 +6,8 @@
   (sensors/cmd.go, fans/cmd.go). Tied to the real code by stream `ex` (`ex.run`, `ex.user`: real scripts,
   real processes, wall clock).
 
-  Verdict of the proofs: the property HOLDS at full strength (`C19_holds`) for every behaviour of the
-  command and every timeout, under the single explicit hypothesis that `os.Stat` does not fail with an
-  error other than not-exist (`st ≠ .otherErr`): in that branch – unreachable for root on a local file
-  system, unchanged by the fixes – `info` is nil and `info.Sys()` panics (`C19_witness_stat_error`,
-  `C19_residual`).
+  Verdict of the proofs: the property HOLDS at full strength (`C19_holds`) for every state of the executable
+  file, every behaviour of the command and every timeout, with no side hypothesis.
 
   History (pre-fix code, all replayed on the real code at the time, then fixed):
   1. start error (`ex.run beh=notexec|badformat|vanish`; `ex.perm owner=0 group=0 mode=644 link=0`):
@@ -19,6 +16,8 @@
      for the pipe → `res=blocked within=0`;  now `res=err within=1` (exec.ErrWaitDelay after 200 ms).
   3. plain `sleep 30` as last line of a `/bin/sh` script (`ex.run beh=sleep timeout_ms=200`): shell killed,
      orphaned `sleep` holds the pipe → `res=blocked within=0`;  now `res=err within=1` (timeout + 200 ms).
+  5. `os.Stat` failing with an error other than not-exist (file swapped for a symlink loop between `EvalSymlinks`
+     and `Stat`): nil `FileInfo` dereferenced → panic;  now an error (`C19_stat_error_is_error`, fix fc39d65).
   4. pipe released after the deadline (`ex.run beh=grandchild timeout_ms=300 hold_ms=1300`): returned
      `("", nil)` late → `res=ok:0: within=0`;  now `res=err within=1`.
 -/
@@ -42,7 +41,7 @@ def C19_ok (beh : Beh) (timeout : Nat) (o : ExecOut) : Prop :=
     every behaviour of the command – cannot be started, any exit code, killed, ignores the deadline,
     leaves descendants holding its output for any time or for ever – and every timeout. -/
 def C19_statement : Prop :=
-  ∀ (ev : EvalRes) (st : StatRes) (beh : Beh) (timeout : Nat), st ≠ .otherErr →
+  ∀ (ev : EvalRes) (st : StatRes) (beh : Beh) (timeout : Nat),
     C19_ok beh timeout (safeCmdExecution ev st beh timeout)
 
 /-- a root-owned 0755 executable: passes the permission check -/
@@ -85,28 +84,28 @@ theorem runCmd_ok (beh : Beh) (timeout : Nat) :
     | .grandchildHoldsStdout out .forever =>
       exact ⟨Or.inl ⟨_, rfl⟩, rfl, _, rfl, Nat.le_add_left _ _⟩
 
-/-- the permission check gives an error value or passes – unless `os.Stat` fails otherwise -/
-theorem checkPerm_cases (ev : EvalRes) (st : StatRes) (hs : st ≠ .otherErr) :
+/-- the permission check gives an error value or passes -/
+theorem checkPerm_cases (ev : EvalRes) (st : StatRes) :
     (∃ e, checkPerm ev st = .ok (.error e)) ∨ checkPerm ev st = .ok (.ok ()) := by
   cases ev with
   | err => exact Or.inl ⟨_, rfl⟩
   | resolved =>
     cases st with
     | notExist => exact Or.inl ⟨_, rfl⟩
-    | otherErr => exact absurd rfl hs
+    | otherErr => exact Or.inl ⟨_, rfl⟩
     | ok s =>
       rcases checkPerm_ok_cases s with h | h
       · exact Or.inr h
       · exact Or.inl h
 
 /-- the same with the sharp bound `timeout + cmdWaitDelay` (200 ms) instead of the margin -/
-theorem C19_holds_tight (ev : EvalRes) (st : StatRes) (beh : Beh) (timeout : Nat) (hs : st ≠ .otherErr) :
+theorem C19_holds_tight (ev : EvalRes) (st : StatRes) (beh : Beh) (timeout : Nat) :
     ((∃ e, (safeCmdExecution ev st beh timeout).res = .ok (.error e)) ∨
       (∃ out, beh.stdout = some out ∧ (safeCmdExecution ev st beh timeout).res = .ok (.ok (trimNl out))))
     ∧ (safeCmdExecution ev st beh timeout).res.isPanic = false
     ∧ ∃ b, (safeCmdExecution ev st beh timeout).boundedBy = some b ∧ b ≤ timeout + cmdWaitDelayMs := by
   unfold safeCmdExecution
-  rcases checkPerm_cases ev st hs with ⟨e, he⟩ | hp
+  rcases checkPerm_cases ev st with ⟨e, he⟩ | hp
   · rw [he]
     exact ⟨Or.inl ⟨_, rfl⟩, rfl, 0, rfl, Nat.zero_le _⟩
   · rw [hp]
@@ -114,25 +113,19 @@ theorem C19_holds_tight (ev : EvalRes) (st : StatRes) (beh : Beh) (timeout : Nat
 
 /-- **C19 holds** for the code that exists now. -/
 theorem C19_holds : C19_statement := by
-  intro ev st beh timeout hs
-  obtain ⟨h1, h2, b, hb, hle⟩ := C19_holds_tight ev st beh timeout hs
+  intro ev st beh timeout
+  obtain ⟨h1, h2, b, hb, hle⟩ := C19_holds_tight ev st beh timeout
   exact ⟨h1, h2, b, hb, Nat.le_trans hle (Nat.add_le_add_left cmdWaitDelay_le_margin _)⟩
 
-/-! ### the residual, modelled-only branch -/
+/-! ### the former residual branch -/
 
-/-- **Residual – `os.Stat` fails with something else than not-exist**: `info` is nil, `info.Sys()`
-    panics. (Not reachable for root on a local file system; modelled branch only, unchanged by the fixes.) -/
-theorem C19_witness_stat_error (beh : Beh) (t : Nat) :
-    (safeCmdExecution .resolved .otherErr beh t).res = .panic "nil" := rfl
-
-/-- hence the hypothesis `st ≠ .otherErr` of `C19_statement` cannot be dropped -/
-theorem C19_residual :
-    ¬ ∀ (ev : EvalRes) (st : StatRes) (beh : Beh) (timeout : Nat),
-        C19_ok beh timeout (safeCmdExecution ev st beh timeout) := by
-  intro h
-  have := (h .resolved .otherErr .startError 2000).2.1
-  rw [C19_witness_stat_error] at this
-  simp [Res.isPanic] at this
+/-- **Former residual – `os.Stat` fails with something else than not-exist** (the file was swapped for a symlink loop
+    between `EvalSymlinks` and `Stat`; replayed on the real code by a rename race: panic after 137 calls): before fix
+    fc39d65 `info` was nil and `info.Sys()` panicked; now the error is returned, nothing is run. -/
+theorem C19_stat_error_is_error (beh : Beh) (t : Nat) :
+    safeCmdExecution .resolved .otherErr beh t
+      = { res := .ok (.error "cannot execute: stat"), attempted := false, ran := false, boundedBy := some 0 } := by
+  simp [safeCmdExecution, checkPerm, safeCmd]
 
 /-! ### the former witnesses, now harmless -/
 
@@ -197,12 +190,12 @@ theorem C19_callers_total {α : Type} (parse : String → Option α) (o : ExecOu
 /-- **Callers never see a panic**, for ANY behaviour of the command and any timeout: `GetValue` /
     `GetPwm` / `GetRpm` return a value or an error, `SetPwm` succeeds or returns an error. -/
 theorem C19_callers_never_panic {α : Type} (parse : String → Option α)
-    (ev : EvalRes) (st : StatRes) (beh : Beh) (timeout : Nat) (hs : st ≠ .otherErr) :
+    (ev : EvalRes) (st : StatRes) (beh : Beh) (timeout : Nat) :
     ((∃ v, cmdUserValue parse (safeCmdExecution ev st beh timeout) = .ok (.ok v)) ∨
       (∃ e, cmdUserValue parse (safeCmdExecution ev st beh timeout) = .ok (.error e))) ∧
     (cmdUserSet (safeCmdExecution ev st beh timeout) = .ok (.ok ()) ∨
       (∃ e, cmdUserSet (safeCmdExecution ev st beh timeout) = .ok (.error e))) := by
-  obtain ⟨h1, h2, _⟩ := C19_holds_tight ev st beh timeout hs
+  obtain ⟨h1, h2, _⟩ := C19_holds_tight ev st beh timeout
   have hne : ∀ e, (safeCmdExecution ev st beh timeout).res ≠ .err e := by
     intro e he
     rcases h1 with ⟨e', h'⟩ | ⟨out, _, h'⟩ <;> rw [h'] at he <;> simp at he
@@ -218,10 +211,7 @@ theorem C19_callers_never_panic {α : Type} (parse : String → Option α)
 theorem C19_trim (ev : EvalRes) (st : StatRes) (beh : Beh) (timeout : Nat) (s : String)
     (h : (safeCmdExecution ev st beh timeout).res = .ok (.ok s)) :
     ∃ out, beh.stdout = some out ∧ s = trimNl out := by
-  have hs : st ≠ .otherErr := by
-    intro hst; subst hst
-    cases ev <;> simp [safeCmdExecution, checkPerm, safeCmd] at h
-  rcases (C19_holds_tight ev st beh timeout hs).1 with ⟨e, he⟩ | ⟨out, ho, hr⟩
+  rcases (C19_holds_tight ev st beh timeout).1 with ⟨e, he⟩ | ⟨out, ho, hr⟩
   · rw [he] at h; simp at h
   · rw [hr] at h
     exact ⟨out, ho, by simpa using h.symm⟩
@@ -256,7 +246,9 @@ theorem C19_trim_unique {pre m post : List Char}
 /-! ### non-vacuity -/
 
 example : C19_ok (.exits 0 "42\n") 2000 (safeCmdExecution .resolved c19GoodFile (.exits 0 "42\n") 2000) :=
-  C19_holds _ _ _ _ (by decide)
+  C19_holds _ _ _ _
+
+example : C19_ok .startError 2000 (safeCmdExecution .resolved .otherErr .startError 2000) := C19_holds _ _ _ _
 
 example : (safeCmdExecution .resolved c19GoodFile (.exits 0 "\n\n abc\n\nx y\t\n\n") 2000).res
     = .ok (.ok " abc\n\nx y\t") := by decide
@@ -280,8 +272,7 @@ example : trimNl "\n\n" = "" ∧ trimNl "" = "" ∧ trimNl "7\n" = "7" ∧ trimN
 
 #print axioms C19_holds
 #print axioms C19_holds_tight
-#print axioms C19_witness_stat_error
-#print axioms C19_residual
+#print axioms C19_stat_error_is_error
 #print axioms C19_start_error_is_error
 #print axioms C19_grandchild_is_bounded
 #print axioms C19_shell_sleep_is_bounded
